@@ -443,7 +443,12 @@ func genHeld(r *Rng, tn string, cw *CaseWriter) (Case, heldStats) {
 		case 0:
 			emit(Op{Op: "ItBegin", T: t})
 		case 1:
-			emit(Op{Op: "ItFrom", T: t, I: int64(r.Range(-1, d+1))})
+			// half of the time the held iterator is STARTED on a pending zero (round 5)
+			if q, ok := vecAimFrom(r, obs[t]); ok && r.Bool() {
+				emit(Op{Op: "ItFrom", T: t, I: q})
+			} else {
+				emit(Op{Op: "ItFrom", T: t, I: int64(r.Range(-1, d+1))})
+			}
 		case 2:
 			var cand []int
 			for k, h := range w.Its {
